@@ -5,6 +5,10 @@ DISAGREEMENT_IS_FAILURE = True
 def expected(case, mout):
     if mout and mout.startswith("F"):
         return "F0" if mout == "F0" else "Fx"
+    if mout == "C":
+        # two packets opening to different session keys: the library refuses; the refusal is
+        # observed as an error, its wording is not part of the verdict
+        return "Fx"
     return mout
 
 def nontrivial(case, mout):
@@ -14,7 +18,7 @@ RULE = ("random messages: container SEIPD v1 / v2 (AES-128/256) with a known ses
         "recipient field = the key, another pool key (decoy) or wildcard) and 0..3 SKESKs (v4 / v6), now and then one packet that opens to a different key K1; presented: a random "
         "subset of the 8 pool keys (two locked, with 0..3 candidate key passwords), of the 4 passwords, explicit session keys (K0, K1, both orders), abort_early on/off. "
         "The model's decision (found K0 / found another key / missing / conflict) over the oracle table of who opens what is compared with decrypt_the_ring: plaintext / decrypt error / "
-        "MissingKey / 'inconsistent session keys'. Unauthenticated SKESK v4 with a non-recipient password is judged in the error direction only (never other plaintext). "
+        "MissingKey (a conflict is a decrypt error; the wording of errors is never part of a verdict). Unauthenticated SKESK v4 with a non-recipient password is judged in the error direction only (never other plaintext). "
         "non-trivial = distinct cases where library = model")
 TRUSTED = [
     "model file: coq/theories/Rules/Recipients.v; theorems coq/theories/Props/C18.v",
